@@ -74,4 +74,17 @@ def run2 (c : Case) : String :=
       | none => s!"res {c.id} unsupported"
     | none => s!"res {c.id} unsupported"
 
+/-- `kind=overlap3`: the library's own sources and the context operators, subscribed with a context that is cancelled
+    while a callback runs (go/harness/overlap.go). The row of the source: serialized when it is built with a locking
+    constructor or has a single emitting goroutine (the row predicate of RoProps/C02b.table_ok). -/
+def rowName3 : String → String
+  | "FutureMap" | "FutureErr" => "Future"
+  | "RangeWithInterval" => "Interval"      -- Pipe2(Interval, Map, Take)
+  | n => n
+
+def run3 (c : Case) : String :=
+  match rowOf (rowName3 (c.getD "op" "?")) with
+  | some r => if r.serialized || !r.multiFeeder then s!"res {c.id} expect=serialized" else s!"res {c.id} expect=may-overlap"
+  | none => s!"res {c.id} unsupported"
+
 end Ro.Driver.Drivers.Overlap
